@@ -91,10 +91,17 @@ def bounded_generated_models(tier, seed):
         "Leaf": C.obj({"leaf-id": P["str"], "n": P["int"]}, ["leaf-id"]),
         "MapOnly": C.obj({"by-key": {"type": "object", "additionalProperties": C.ref("Leaf")}}, ["by-key"]),
         "Leaf2": C.obj({"leaf-id": P["str"]}, ["leaf-id"]),
+        # maps whose VALUES are formatted leaves (typed wrapper classes): values must come back as the wire strings
+        "Stamps": {"type": "object", "additionalProperties": P["datetime"]},
+        "Days": {"type": "object", "additionalProperties": P["date"]},
+        "Idents": {"type": "object", "additionalProperties": P["uuid"]},
+        "Counts": {"type": "object", "additionalProperties": P["int"]},
+        "Audit": C.obj({"stamps": C.ref("Stamps"), "idents": C.ref("Idents"), "inline-days": {"type": "object", "additionalProperties": P["date"]}}, []),
         "ListOfMaps": C.obj({"rows": {"type": "array", "items": {"type": "object", "additionalProperties": C.ref("Leaf2")}}}, ["rows"]),
     }
     d = C.doc("RT", [C.op("/o", "get", "getO", ["o"], responses={"200": C.resp_json(C.ref("Outer")), "201": C.resp_json(C.ref("Registry")), "202": C.resp_json(C.ref("Holder")),
-                                                                      "203": C.resp_json(C.ref("MapOnly")), "206": C.resp_json(C.ref("ListOfMaps"))})], schemas)
+                                                                      "203": C.resp_json(C.ref("MapOnly")), "206": C.resp_json(C.ref("ListOfMaps")), "207": C.resp_json(C.ref("Audit")),
+                                                                      "208": C.resp_json(C.ref("Days")), "226": C.resp_json(C.ref("Counts"))})], schemas)
     inner = {"user-id": "u1", "pageSize": 3, "when": "2024-01-02T03:04:05+00:00", "day": "2024-01-02", "ident": "12345678-1234-5678-1234-567812345678",
              "blob": "aGk=", "3dModels": 2, "_hidden": "h", "class": "c", "kind": "a-b", "level": 0, "mode": "", "flag": False, "count": 0, "note": ""}
     outer = {"inner": inner, "many": [inner, {"user-id": "u2"}], "by-key": {"k": inner}, "tags": ["x"], "address_line": "a1", "addressLine": "a2", "address_line_2": "a3"}
@@ -174,6 +181,26 @@ def bounded_generated_models(tier, seed):
                 assert back == doc, (doc, back)
             ''') % (modname, cname, __import__("json").dumps(doc_))
             ok, out = G.import_modules(root, ["rt.models"], extra_code=solo3)
+            n += 1
+            if not ok:
+                failures.append({"id": f"bounded:generated-roundtrip:{label}", "detail": out[-600:], "input": {"document": doc_, "class": cname}})
+        for label, modname, cname, doc_ in (
+                ("map-of-date-time", "stamps", "Stamps", {"a": "2024-01-02T03:04:05+00:00"}), ("map-of-date", "days", "Days", {"d": "2024-01-02"}),
+                ("map-of-uuid", "idents", "Idents", {"u": "12345678-1234-5678-1234-567812345678"}), ("map-of-int", "counts", "Counts", {"n": 0, "m": 7}),
+                ("object-holding-formatted-maps", "audit", "Audit", {"stamps": {"a": "2024-01-02T03:04:05+00:00"}, "idents": {"u": "12345678-1234-5678-1234-567812345678"},
+                                                                       "inline-days": {"d": "2024-01-02"}})):
+            solo5 = textwrap.dedent('''
+                import json
+                from rt.core.cattrs_converter import structure_from_dict, unstructure_to_dict
+                from rt.core.utils import DataclassSerializer
+                from rt.models.%s import %s as T
+                doc = json.loads(%r)
+                obj = structure_from_dict(doc, T)
+                back = unstructure_to_dict(obj)
+                assert json.loads(json.dumps(back)) == doc, (doc, back)
+                assert json.loads(json.dumps(DataclassSerializer.serialize(obj))) == doc, ("serialize", doc)
+            ''') % (modname, cname, __import__("json").dumps(doc_))
+            ok, out = G.import_modules(root, ["rt.models"], extra_code=solo5)
             n += 1
             if not ok:
                 failures.append({"id": f"bounded:generated-roundtrip:{label}", "detail": out[-600:], "input": {"document": doc_, "class": cname}})
